@@ -58,7 +58,7 @@ func init() {
 		"Decides: in every rounding operation the value delivered by each return has passed a setExponent range check after its last coefficient/exponent write (or is a whole-value copy, a small constant, or a tabled exception with its invariant); rounding increments are renormalised through roundAddOne; signed inputs to coefficients are sign-normalised; Context.Reduce strips after rounding.",
 		[]string{"that Rounder.Round removes exactly NumDigits−Precision digits (digit arithmetic)"})
 	prop("C08", "Special values follow the decimal arithmetic rules in every operation",
-		[]string{"C08.R1", "C08.R2", "C08.R3", "C08.R4", "C08.R5", "C08.R6", "C08.R7"},
+		[]string{"C08.R1", "C08.R2", "C08.R3", "C08.R4", "C08.R5", "C08.R6", "C08.R7", "C08.R8"},
 		"Decides: every exported Context operation tests all its operands for NaN first and returns setAsNaN with the same operands; setAsNaN's selection order and signaling behaviour (path enumeration); NaN results and invalid-class flags are paired both ways, DivisionByZero with infinity; copied unsigned specials/zeros get their sign from the operands; the exact-zero sum sign is c.Rounding == RoundFloor.",
 		[]string{"the complete result table for finite × special operand combinations beyond these pairings"})
 	prop("C09", "Quantize and RoundToIntegral produce the requested exponent, correctly rounded",
